@@ -148,3 +148,161 @@ def run(ctx):
     # bulk derivation must not bypass what ckd refuses or computes (hardened refusal, invalid-key refusals)
     from .C01 import check_bulk
     check_bulk(ctx, 'C18.BULK(=C01)', kinds=('prv', 'pub'))
+    check_swallow(ctx, 'C18.SWALLOW')
+
+
+# ======================================================================================= error discipline (R-ERR)
+SWALLOW_PLANTED = """
+import contextlib
+class CM:
+    def __enter__(self): return self
+    def __exit__(self, a, b, c): return 1
+def f(n):
+    try:
+        return n.ckd(1)
+    finally:
+        return n
+def g(n):
+    for i in range(3):
+        try:
+            n.ckd(i)
+        finally:
+            break
+def h(n):
+    with contextlib.suppress(Exception):
+        return n.ckd(1)
+def k(n):
+    try:
+        return n.ckd(1)
+    except Exception:
+        return None
+"""
+
+
+def _finally_jumps(fn):
+    """return / break / continue statements inside a `finally:` block (they discard an exception in flight)"""
+    out = []
+    for t in ast.walk(fn):
+        if isinstance(t, ast.Try) and t.finalbody:
+            stack = [(s, 0) for s in t.finalbody]
+            while stack:
+                n, loops = stack.pop()
+                if isinstance(n, (ast.FunctionDef, ast.AsyncFunctionDef, ast.Lambda, ast.ClassDef)):
+                    continue
+                if isinstance(n, ast.Return):
+                    out.append(('return', n))
+                elif isinstance(n, (ast.Break, ast.Continue)) and loops == 0:
+                    out.append((type(n).__name__.lower(), n))
+                inner = loops + (1 if isinstance(n, (ast.For, ast.While, ast.AsyncFor)) else 0)
+                for c in ast.iter_child_nodes(n):
+                    stack.append((c, inner))
+    return out
+
+
+_BROAD = {'Exception', 'BaseException', 'InvalidKeyError', 'RuntimeError', 'ValueError'}
+
+
+def _names_in(expr):
+    if expr is None:
+        return {'<bare>'}
+    out = set()
+    for n in ast.walk(expr):
+        if isinstance(n, ast.Name):
+            out.add(n.id)
+        elif isinstance(n, ast.Attribute):
+            out.add(n.attr)
+    return out
+
+
+def _suppressions(fn):
+    """(kind, node, detail): with-items that are contextlib.suppress(<broad>); handlers for a broad type with no raise"""
+    out = []
+    for n in ast.walk(fn):
+        if isinstance(n, (ast.With, ast.AsyncWith)):
+            for it in n.items:
+                c = it.context_expr
+                if isinstance(c, ast.Call) and (ast.unparse(c.func) in ('suppress', 'contextlib.suppress')):
+                    caught = set()
+                    for a in c.args:
+                        caught |= _names_in(a)
+                    if caught & _BROAD:
+                        out.append(('suppress', n, sorted(caught & _BROAD)))
+        if isinstance(n, ast.Try):
+            for h in n.handlers:
+                caught = _names_in(h.type)
+                if not (caught & (_BROAD | {'<bare>'})):
+                    continue
+                if any(isinstance(x, ast.Raise) for s in h.body for x in ast.walk(s)):
+                    continue
+                out.append(('handler', h, sorted(caught & (_BROAD | {'<bare>'}))))
+    return out
+
+
+def check_swallow(ctx, rule):
+    """Invalid children are *reported*: between a refusing `raise` in the derivation code and the caller there must be
+    nothing that can discard an exception in flight - a `return`/`break`/`continue` inside `finally`, a context manager of
+    the package whose `__exit__` can return a true value, `contextlib.suppress` of a matching type, or a handler for such a
+    type that does not re-raise around a call that derives."""
+    p = ctx.p
+    from .C13 import API_ROOTS
+    roots = [p.get_function(q) for q in API_ROOTS if (PKG + '.' + q) in p.functions or q in p.functions]
+    closure_ = set(p.reachable_from(roots)) | set(roots)
+    derivers = {f for f in p.functions.values() if f.name in ('ckd', 'derive_path', 'generate_children', 'master_key', 'by_path')}
+    reach_deriv = {}
+
+    def derives(fi):
+        if fi not in reach_deriv:
+            reach_deriv[fi] = bool((set(p.reachable_from([fi])) | {fi}) & derivers)
+        return reach_deriv[fi]
+    with ctx.obligation(rule, 'exception-discarding constructs in the derivation closure', None, 'btc_hd_wallet/') as ob:
+        ctrl = ast.parse(SWALLOW_PLANTED)
+        n_ctrl = sum(len(_finally_jumps(f)) + len(_suppressions(f)) for f in ctrl.body if isinstance(f, ast.FunctionDef))
+        if n_ctrl < 4:
+            ob.undecided('positive control failed: %d of 4 planted constructs recognised' % n_ctrl)
+        ob.saw('%d functions in the closure' % len(closure_))
+        for fi in sorted(closure_, key=lambda f: f.qual):
+            ob.evaluations += 1
+            key = fi.qual[len(PKG) + 1:]
+            if not derives(fi):
+                continue
+            for kind, n in _finally_jumps(fi.node):
+                ob.require(False, '%s: `%s` inside `finally` discards an exception in flight (an invalid child or a refused index is '
+                           'then not reported: the caller gets a value instead)' % (key, kind), '%s:%d' % (fi.module.relpath, n.lineno))
+            for kind, n, detail in _suppressions(fi.node):
+                if kind == 'suppress':
+                    ob.require(False, '%s: contextlib.suppress(%s) around derivation discards the refusal' % (key, ', '.join(detail)),
+                               '%s:%d' % (fi.module.relpath, n.lineno))
+                else:
+                    # a handler that does not re-raise: only a problem when the guarded body derives
+                    tr = next(t for t in ast.walk(fi.node) if isinstance(t, ast.Try) and n in t.handlers)
+                    inside = {id(x) for s in tr.body for x in ast.walk(s)}
+                    callees = set()
+                    for cs in p.calls_from(fi):
+                        if id(cs.node) in inside:
+                            callees |= {t for t in cs.targets if hasattr(t, 'qual') and hasattr(t, 'node') and isinstance(t.node, ast.FunctionDef)}
+                    if any(derives(c) for c in callees):
+                        ob.require(False, '%s: a handler for %s around a deriving call does not re-raise: the refusal is swallowed'
+                                   % (key, ', '.join(detail)), '%s:%d' % (fi.module.relpath, n.lineno))
+            # context managers of the package: __exit__ must not be able to return a true value
+            for n in ast.walk(fi.node):
+                if not isinstance(n, (ast.With, ast.AsyncWith)):
+                    continue
+                for it in n.items:
+                    c = it.context_expr
+                    if not (isinstance(c, ast.Call) and isinstance(c.func, (ast.Name, ast.Attribute))):
+                        continue
+                    r = p.resolve_name(fi.module, c.func.id) if isinstance(c.func, ast.Name) else None
+                    if r is None or not hasattr(r, 'find_method'):
+                        continue
+                    ex = r.find_method('__exit__')
+                    if ex is None:
+                        continue
+                    ev = Evaluator(p, 'ecdsa')
+                    me = S('cm', cls=r.qual)
+                    args = [me, T.clsref(PKG + '.bip32.InvalidKeyError'), S('exc_value'), S('traceback')]
+                    v, _ = ev.call_function(ex.qual[len(PKG) + 1:], args[:len(ex.params)])
+                    for leaf in distinct_normal_leaves(v):
+                        falsy = leaf in (T.NONE, T.FALSE) or (T.is_const(leaf) and not leaf[1])
+                        ob.require(falsy, '%s: the block runs under %s, whose __exit__ can return a true value (%s): Python then '
+                                   'discards the exception raised inside the block' % (key, r.name, T.show(leaf, maxdepth=3)),
+                                   '%s:%d' % (fi.module.relpath, n.lineno))
